@@ -112,8 +112,12 @@ class ForcingRng:
 
 
 class C06Gen(goldgen.Gen):
-    """Gen whose renderer separates a prefix minus from an operand that itself starts with a minus
-    (`- -x`; goldgen renders `--x`, which is the decrement token and not the program it means)"""
+    """Gen with (a) a renderer that separates a prefix minus from an operand that itself starts with a minus
+    (`- -x`; goldgen renders `--x`, which is the decrement token and not the program it means), and (b) the
+    constructs goldgen does not emit but the C06 proofs cover: untyped parameters, `uses` / `type` inside bodies,
+    `var .. absolute ..`, annotations in front of fields"""
+    EXTRA_FORMS = 3          # uses / type / var-absolute inside a body
+
     def render_expr(self, e, min_level=0, noparen=False):
         if e[0] == "pre" and e[1] == "-":
             inner = self.render_expr(e[2], goldgen.PRIMARY)
@@ -123,6 +127,61 @@ class C06Gen(goldgen.Gen):
             return s
         return super().render_expr(e, min_level, noparen)
 
+    def extra_stmt(self, depth, k):
+        r = self.r
+        ind = "  " * (depth + 1)
+        if k == 0:
+            us = r.sample(["aBase", "aUtil", "WFCore"], r.randint(1, 3))
+            return [ind + self.kw("uses") + " " + ", ".join(us)], ("AstUses", "uses", [])
+        if k == 1:
+            nm = "tLocal" + str(r.randint(0, 9))
+            tt, te = self.gen_type(2)
+            if "\n" in tt:
+                tt, te = "int4", ("AstTypeBasic", "int4", [])
+            return [ind + self.kw("type") + " " + nm + " : " + tt], ("AstTypeDeclaration", nm, [te])
+        nm = r.choice(["ov", "alias", "p"]) + str(r.randint(0, 9))
+        tt, te = self.gen_type(2)
+        if "\n" in tt:
+            tt, te = "int4", ("AstTypeBasic", "int4", [])
+        tgt = self.ident()
+        return [ind + self.kw("var") + " " + nm + " : " + tt + " " + self.kw("absolute") + " " + tgt], \
+            ("AstLocalVariableDeclaration", nm, [te, ("AstTerminal", tgt, [])])
+
+    def gen_stmt(self, depth=0):
+        if self.r.random() < 0.05:
+            return self.extra_stmt(depth, self.r.randrange(self.EXTRA_FORMS))
+        return super().gen_stmt(depth)
+
+    def gen_params(self, depth=0, force=False):
+        """as goldgen's, plus untyped parameters"""
+        r = self.r
+        if not force and r.random() < 0.35:
+            return "", []
+        ps, kids = [], []
+        for i in range(r.randint(0, 3)):
+            nm = r.choice(["A", "B", "Count", "pX", "Val"]) + str(i)
+            mod = r.choice(["", "", self.kw("inout") + " ", self.kw("var") + " ", self.kw("const") + " "])
+            if r.random() < 0.2:
+                ps.append("%s%s" % (mod, nm))
+                kids.append(("AstParameterDeclaration", nm, []))
+                continue
+            tt, te = self.gen_type(depth + 1) if depth < 2 else ("int4", ("AstTypeBasic", "int4", []))
+            if "\n" in tt:
+                tt, te = "int4", ("AstTypeBasic", "int4", [])
+            ps.append("%s%s : %s" % (mod, nm, tt))
+            kids.append(("AstParameterDeclaration", nm, [te]))
+        return "(" + ", ".join(ps) + ")", [("AstParameterDeclarationList", "param_decls", kids)]
+
+    def gen_decl(self):
+        lines, e = super().gen_decl()
+        if e[0] == "AstGlobalVariableDeclaration" and self.r.random() < 0.2:
+            ann = self.r.choice(["[Key]", "[Index, 2]", "[ Doc 'x y' ]", "[]"])
+            if self.r.random() < 0.5:
+                lines = [ann] + lines
+            else:
+                lines = [ann + " " + lines[0]] + lines[1:]
+        return lines, e
+
 
 class NestGen(C06Gen):
     """Gen whose block bodies start with a forced statement form"""
@@ -131,8 +190,10 @@ class NestGen(C06Gen):
         self.inner = None
 
     def stmt_of_kind(self, depth, k):
+        if k >= 17:
+            return self.extra_stmt(depth, k - 17)
         self.r.forced.append(k)
-        return self.gen_stmt(depth)
+        return goldgen.Gen.gen_stmt(self, depth)
 
     def gen_block(self, depth, n=None):
         if self.inner is not None and depth == 1:
@@ -145,7 +206,7 @@ class NestGen(C06Gen):
         return super().gen_block(depth, n)
 
 
-N_FORMS = 17
+N_FORMS = 17 + C06Gen.EXTRA_FORMS
 BLOCK_FORMS = range(8, 15)     # if for foreach while loop repeat switch
 
 
@@ -176,6 +237,31 @@ def nested_programs(seed, reps):
 # ---------------------------------------------------------------------------------------------
 # layout
 # ---------------------------------------------------------------------------------------------
+
+TERMINATORS = ("endswitch", "endwhen", "when", "endif", "elseif", "else", "endloop", "until", "endfor", "endwhile", "endrecord",
+               "endproc", "endfunc", "end")
+
+
+def comment_terminators(rng, text, prob):
+    """a comment line in front of block terminators (every one when prob = 1): comments are layout, and the
+    terminators are found by parsers that must skip them"""
+    nl = "\r\n" if "\r\n" in text else "\n"
+    out = []
+    for ln in text.split(nl):
+        w = ln.strip().split(" ")[0].lower() if ln.strip() else ""
+        if w in TERMINATORS and rng.random() < prob:
+            out.append(ln[:len(ln) - len(ln.lstrip(" \t"))] + ";" + rng.choice(["c", "note", "", "end", "x = 1"]))
+        out.append(ln)
+    return nl.join(out)
+
+
+SWITCH_COMMENT_CASES = [
+    "proc P\n switch x\n  when 1\n   a = 1\n  endwhen\n  ;c\n endswitch\nendproc\n",
+    "proc P\n switch x\n  when 1\n   a = 1\n  endwhen\n  ;c\n else\n   b = 2\n  ;d\n endswitch\nendproc\n",
+    "proc P\n switch x\n  ;c\n endswitch\nendproc\n",
+    "proc P\n switch x\n  ;c\n  when 1, 2\n  ;d\n  endwhen\n  ;e\n  when 3 to 4\n  endwhen\n ;f\n endswitch\n ;g\nendproc\n",
+]
+
 
 def relayout(rng, text):
     """random indentation, trailing blanks, blank lines and line terminators; tokens and their order are
@@ -340,3 +426,35 @@ def innermost_violations(root, ident_idx):
                 bad.append((n[1], n[3]["range"], p, got[0], got[1], got[3]["range"]))
                 break
     return bad
+
+
+# ---------------------------------------------------------------------------------------------
+# position lookup through the real search_encasing_node (engine `encase`)
+# ---------------------------------------------------------------------------------------------
+
+def token_nodes(root):
+    """every node that carries its own token (key 0: AstTerminal / AstTypeBasic / AstTypeSized) or a name token
+    (key 1: declarations, parameters, record fields, enum variants, for counters, ...): at any position of that
+    token the innermost node is that node -- identifiers in bodies as well as parameter names and types of
+    procedures AND functions, return types, field / record-field / local types"""
+    out = []
+
+    def walk(n):
+        for (k, ty, raw, s, e, val) in tokens_of_attrs(n[3]["attrs"]):
+            if k in (0, 1):
+                out.append((n, s, e))
+                break
+        for c in n[2]:
+            walk(c)
+    walk(root)
+    return out
+
+
+def lookup_queries(root):
+    """[(position, expected node)]: start, middle and end of every such token"""
+    qs = []
+    for (n, s, e) in token_nodes(root):
+        mid = (s[0], (s[1] + e[1]) // 2) if s[0] == e[0] else s
+        for p in dict.fromkeys((s, mid, e)):
+            qs.append((p, n))
+    return qs
